@@ -285,11 +285,14 @@ fn dump_crate<'tcx>(tcx: TyCtxt<'tcx>, name: &str) -> J {
         match tcx.def_kind(did) {
             DefKind::Fn | DefKind::AssocFn | DefKind::Closure => {
                 let body = tcx.optimized_mir(did);
-                fns.push(fn_j(tcx, ldid, body));
+                fns.push(fn_j(tcx, ldid, body, None));
+                for (pi, pb) in tcx.promoted_mir(did).iter_enumerated() {
+                    fns.push(fn_j(tcx, ldid, pb, Some(pi.as_u32())));
+                }
             }
             DefKind::AnonConst | DefKind::InlineConst => {
                 let body = tcx.mir_for_ctfe(did);
-                fns.push(fn_j(tcx, ldid, body));
+                fns.push(fn_j(tcx, ldid, body, None));
             }
             _ => {}
         }
@@ -463,7 +466,7 @@ struct Cx<'a, 'tcx> {
     env: TypingEnv<'tcx>,
 }
 
-fn fn_j<'tcx>(tcx: TyCtxt<'tcx>, ldid: LocalDefId, body: &Body<'tcx>) -> J {
+fn fn_j<'tcx>(tcx: TyCtxt<'tcx>, ldid: LocalDefId, body: &Body<'tcx>, promoted: Option<u32>) -> J {
     let did = ldid.to_def_id();
     let cx = Cx { tcx, body, env: TypingEnv::post_analysis(tcx, did) };
     let kind = tcx.def_kind(did);
@@ -507,6 +510,19 @@ fn fn_j<'tcx>(tcx: TyCtxt<'tcx>, ldid: LocalDefId, body: &Body<'tcx>) -> J {
         );
     }
     // container (impl / trait) facts
+    if let Some(pi) = promoted {
+        return J::obj()
+            .fs("path", format!("{}::promoted[{}]", dp(tcx, did), pi))
+            .fs("def_kind", "Promoted")
+            .fs("vis", "n/a")
+            .fi("arg_count", 0)
+            .f("span", span_obj(tcx, tcx.def_span(did)))
+            .fs("parent", dp(tcx, did))
+            .f("locals", J::Arr(locals))
+            .f("debug", J::Arr(dbg))
+            .f("blocks", J::Arr(blocks))
+            .done();
+    }
     let mut o = J::obj()
         .fs("path", dp(tcx, did))
         .fs("def_kind", format!("{:?}", kind))
